@@ -40,6 +40,9 @@ def value_to_literal(val: object, loc):
         case float() if not math.isfinite(val):
             return None
         case int() | float():
+            if isinstance(val, float) and val == 0 and math.copysign(1.0, val) < 0:
+                # a Python `-0.0`: `Fraction(-0.0)` is the unsigned zero
+                return Decnum('-0.0', loc)
             return _rational_literal(Fraction(val), loc)
         case Fraction():
             return _rational_literal(val, loc)
